@@ -65,8 +65,54 @@ def gen_file(d, name, allow_big, idx):
     return dict(name=name, blocks=blocks)
 
 
+LAYOUT_N = [0, 5, 40, 41, 42, 43, 44, 50, 62, 63, 64, 65, 70]
+
+
+def gen_layout_file(d, name):
+    """multi-pass 6502 source: short branches over statements that shrink once a forward symbol is known
+    (`lda fw`: 3 bytes while fw is unknown, 2 bytes when it turns out to lie in the zero page).  Whether a branch
+    is in reach can differ between the passes; whatever AS decides, status, code file, printed errors and the
+    summary must tell the same story."""
+    blocks = []
+    for _ in range(d.int(1, 4)):
+        k = d.weighted([(4, "bfwd"), (3, "bback"), (2, "good"), (1, "err"), (1, "move")])
+        if k in ("bfwd", "bback"):
+            blocks.append([k, d.choice(LAYOUT_N), d.choice(["fw", "fw", "zp", "ab"])])
+        elif k == "good":
+            blocks.append(["good", d.int(1, 3)])
+        elif k == "err":
+            blocks.append(["err", d.int(1, 2)])
+        else:
+            blocks.append(["move", d.int(1, 3)])
+    return dict(name=name, blocks=blocks, fwzp=d.bool(0.8))
+
+
+def render_layout(f):
+    L = ["\tcpu 6502", "\torg $200", "zp\tequ $20", "ab\tequ $1234"]
+    for i, b in enumerate(f["blocks"]):
+        if b[0] == "bfwd":
+            L += ["\tbne t%d" % i] + ["\tlda %s" % b[2]] * b[1] + ["t%d:\tnop" % i]
+        elif b[0] == "bback":
+            L += ["t%d:\tnop" % i] + ["\tlda %s" % b[2]] * b[1] + ["\tbne t%d" % i]
+        elif b[0] == "good":
+            L += ["\tinx"] * b[1]
+        elif b[0] == "err":
+            L += ["\tlda #300"] * b[1]
+        else:
+            L += ["\tlda fw"] * b[1] + ["m%d:\tnop" % i, "\tjmp m%d" % i]
+    L.append("fw\tequ %s" % ("$10" if f["fwzp"] else "$1010"))
+    return "\n".join(L) + "\n"
+
+
 @composite
 def strategy_(d, tier):
+    if d.int(0, 99) < 14:
+        nfiles = d.weighted([(3, 1), (2, 2)])
+        o = dict(x=d.weighted([(3, 0), (1, 1)]), n=d.bool(0.3), q=d.bool(0.5), E=d.weighted([(3, "default"), (1, "!1"), (1, "file")]),
+                 gnu=d.bool(0.2))
+        if d.bool(0.2):
+            o["werror"] = True
+        return dict(kind="layout", files=[gen_layout_file(d, "s%d" % i) for i in range(nfiles)], opts=o)
     nfiles = d.weighted([(3, 1), (1, 2)])
     big = d.bool(0.35)
     files = [gen_file(d, "s%d" % i, big and i == 0, i) for i in range(nfiles)]
@@ -162,7 +208,87 @@ NATIVE = re.compile(r"^> > > (?:INTERNAL|\S+\(\d+\)[^\n]*?): (error|warning)( #\
 GNU = re.compile(r"^(?:INTERNAL|[^\s:>]+:\d+(:\d+)?)( #\d+)?: ", re.M)
 
 
+def argv_of(o, files):
+    argv = ["asl"]
+    if o["q"]:
+        argv.append("-q")
+    if o.get("werror"):
+        argv.append("-Werror")
+    if o.get("maxerrors"):
+        argv += ["-maxerrors", str(o["maxerrors"])]
+    argv += ["-x"] * o["x"]
+    if o["n"]:
+        argv.append("-n")
+    if o["gnu"]:
+        argv.append("-gnuerrors")
+    if o["E"] in ("!1", "!2"):
+        argv += ["-E", o["E"]]
+    elif o["E"] == "file":
+        argv += ["-E", "errs.txt"]
+    argv += [f["name"] + ".asm" for f in files]
+    if o["E"] == "bare":
+        argv.append("-E")
+    return argv
+
+
+ERRLINE_N = re.compile(r"^> > > (\S+?)\((\d+)\)[^\n]*?: error( #\d+)?: ", re.M)
+ERRLINE_G = re.compile(r"^([^\s:>]+):(\d+)(?::\d+)?( #\d+)?: (?!warning)", re.M)     # GNU style: errors carry no keyword
+
+
+def execute_layout(case):
+    """no count model: the four witnesses of one run must agree with each other, per source file"""
+    o = case["opts"]
+    files = case["files"]
+    classes = ["layout", "E:" + o["E"]]
+    argv = argv_of(o, files)
+    with run.Work("c02") as d:
+        run.write_files(d, {f["name"] + ".asm": render_layout(f) for f in files})
+        r = run.run(argv, d, timeout=120, cpu=60)
+        if r.timed_out or r.signal in (24, 9):
+            return engine.inconclusive("timeout", classes)       # a pass livelock is property C01
+        exists = {f["name"]: run.read(d, f["name"] + ".p") is not None for f in files}
+        chan = (run.read(d, "errs.txt") or b"").decode("latin-1") if o["E"] == "file" else (r.out if o["E"] == "!1" else r.err)
+    detail = dict(argv=argv, status=r.status, signal=r.signal, stderr=r.err[-400:], stdout=r.out[-500:], exists=exists,
+                  sources={f["name"]: render_layout(f)[:1500] for f in files})
+    if r.signal:
+        return engine.bad("asl killed by signal %d" % r.signal, None, classes, **detail)
+    per = {f["name"]: 0 for f in files}
+    for m in (ERRLINE_G if o["gnu"] else ERRLINE_N).finditer(chan):
+        nm = m.group(1).rsplit(".", 1)[0]
+        if nm in per:
+            per[nm] += 1
+    nerr = sum(per.values())
+    nt = []
+    if nerr:
+        nt.append("errors")
+    if any(b[0] in ("bfwd", "bback") and 43 <= b[1] <= 63 and b[2] == "fw" and f["fwzp"] for f in files for b in f["blocks"]):
+        nt.append("reach-differs-between-passes")
+    if len(files) > 1:
+        nt.append("two-files")
+    classes += nt
+    key = "layout|" + ",".join(nt) + "|" + ",".join(sorted(k for k, v in o.items() if v and k not in ("E", "x"))) + o["E"] \
+        if nt else None
+    if (r.status == 0) != (nerr == 0):
+        return engine.bad("exit status %s with %d error lines on the error channel" % (r.status, nerr), key, classes,
+                          chan=chan[:600], **detail)
+    if r.status not in (0, 2):
+        return engine.bad("exit status %s" % r.status, key, classes, chan=chan[:600], **detail)
+    for f in files:
+        if exists[f["name"]] != (per[f["name"]] == 0):
+            return engine.bad("code file of %s %s, %d errors were reported for it" %
+                              (f["name"], "exists" if exists[f["name"]] else "is missing", per[f["name"]]), key, classes,
+                              chan=chan[:600], **detail)
+    if not o["q"]:
+        errs = [int(x) for x in re.findall(r"^\s*(\d+) errors?\s*$", r.out, re.M)]
+        if errs != [per[f["name"]] for f in files]:
+            return engine.bad("summary says %s errors, %s error lines were printed per file" %
+                              (errs, [per[f["name"]] for f in files]), key, classes, chan=chan[:600], **detail)
+    return engine.ok(key, classes)
+
+
 def execute(case):
+    if case.get("kind") == "layout":
+        return execute_layout(case)
     o = case["opts"]
     m = model(case)
     has_undef = any(k == "undef" and c for f in case["files"] for k, c in f["blocks"])
@@ -250,6 +376,8 @@ def execute(case):
 
 
 def show(case):
+    if case.get("kind") == "layout":
+        return dict(opts=case["opts"], files=[(f["name"], f["blocks"], f["fwzp"]) for f in case["files"]])
     return dict(opts=case["opts"], files=[(f["name"], f["blocks"]) for f in case["files"]])
 
 
